@@ -120,16 +120,18 @@ type ioResult struct {
 	fileRd   bool
 }
 
-func (c *IOCase) args() []string {
+func (c *IOCase) args() []string { return c.argsFor(c.FileName) }
+
+func (c *IOCase) argsFor(file string) []string {
 	a := []string{"jpgo"}
 	if c.Channel == "file" {
 		switch c.InputFlag {
 		case "-input=", "--input=":
-			a = append(a, c.InputFlag+c.FileName)
+			a = append(a, c.InputFlag+file)
 		case "--input":
-			a = append(a, "--input", c.FileName)
+			a = append(a, "--input", file)
 		default:
-			a = append(a, "-input", c.FileName)
+			a = append(a, "-input", file)
 		}
 	}
 	return append(a, c.Expr)
@@ -348,6 +350,9 @@ func (c *IOCase) describe() string {
 // ---------------------------------------------------------------- generation
 
 var ioEvalErrExprs = []string{"abs(s)", "sort_by(mixed, &k)", "length(n)", "max_by(mixed, &k)", "unknown_fn(nums)", "sum(strs)", "join(',', nums)", "nums[::0]", "merge(o1, nums)", "sort(objs)"}
+var ioNumberExprs = []string{"abs(id)", "type(id)", "items[?id > `10`].v", "id == `9007199254740992`", "sum(nums)", "nums[0]", "max(nums)", "sort(nums)", "nums", "n", "abs(n)", "objs[?k > `5`].s", "sort_by(objs, &k)[0].s", "max_by(objs, &k).s",
+	"nums[?@ > `1`]", "avg(nums)", "to_string(nums)", "to_number(to_string(id))", "id", "ceil(nums[3])", "nums[0] == nums[0]", "objs[0].k == objs[1].k", "length(nums)", "floor(n)", "@"}
+
 var ioOddResultExprs = []string{"avg(e)", "&nums", "[&nums]", "contains(nested, nested[0])", "`\"<a>&\\u2028\"`", "to_string(@)", "s", "z", "`[]`", "`{}`", "n", "t", "''", "o1.*", "keys(o1)", "@"}
 
 func indentJSON(r *gen.Rng, text string) string {
@@ -392,7 +397,7 @@ func bigText(r *gen.Rng, target int) string {
 }
 
 func invalidText(r *gen.Rng, valid string) string {
-	switch r.Intn(9) {
+	switch r.Intn(11) {
 	case 0:
 		if len(valid) > 1 {
 			return valid[:1+r.Intn(len(valid)-1)]
@@ -412,6 +417,11 @@ func invalidText(r *gen.Rng, valid string) string {
 		return "   \n\t "
 	case 7:
 		return "// comment\n" + valid
+	case 8:
+		// bytes around an otherwise valid text: BOMs, NUL, form feed — encoding/json rejects them
+		return r.Pick([]string{"\xef\xbb\xbf", "\xff\xfe", "\xfe\xff", "\x00", "\x0c", "\x1e", "\ufeff", ")]}'\n", "\u00a0", "\u2028"}) + valid
+	case 9:
+		return valid + r.Pick([]string{"\x00", "\x1a", "\xef\xbb\xbf", "\x0c", ";", "\u00a0"})
 	default:
 		if len(valid) > 2 {
 			k := r.Intn(len(valid))
@@ -432,6 +442,9 @@ func genIOWorkload(r *gen.Rng) (expr, text string) {
 		valid = gen.Doc(r)
 	case x < 70:
 		valid = corpus[r.Intn(len(corpus))].Doc
+	case x < 74:
+		valid = r.Pick([]string{`{"id":9007199254740993,"items":[{"id":9007199254740993,"v":"x"},{"id":5,"v":"y"}],"nums":[9007199254740993,1e21,123456789012345678901234567890,0.1,1e-7,-0,4294967296,1.0,100e-2]}`,
+			`{"nums":[18446744073709551616,9223372036854775807,-9223372036854775808,3.0,2.50,1E3],"objs":[{"k":9007199254740993,"s":"a"},{"k":9007199254740992,"s":"b"}],"n":9007199254740993}`})
 	case x < 80:
 		valid = r.Pick([]string{"{}", "[]", "null", "0", "\"s\"", "true", "[1,2,3]", "{\"a\":{\"b\":[1,{\"c\":\"é\\n\"}]}}", "-0.5e2", "{\"nums\":[3,1,2],\"s\":\"x\"}", "[[],[[]]]", " 7 "})
 	case x < 92:
@@ -455,6 +468,8 @@ func genIOWorkload(r *gen.Rng) (expr, text string) {
 		expr = gen.BrokenExprs[r.Intn(len(gen.BrokenExprs))]
 	case x < 82:
 		expr = ioEvalErrExprs[r.Intn(len(ioEvalErrExprs))]
+	case x < 86:
+		expr = ioNumberExprs[r.Intn(len(ioNumberExprs))]
 	case x < 92:
 		expr = ioOddResultExprs[r.Intn(len(ioOddResultExprs))]
 	default:
@@ -472,7 +487,10 @@ func baseCase(r *gen.Rng, expr, text string) IOCase {
 	c := IOCase{Expr: expr, Text: text, Channel: "stdin", Chunk: "all", FailAfter: -1, StdoutFailAfter: -1}
 	if r.Chance(1, 2) {
 		c.Channel = "file"
-		c.FileName = r.Pick([]string{"/tmp/data.json", "data.json", "./in put.json", "/nonexistent/dir/x"})
+		c.FileName = r.Pick([]string{"/tmp/data.json", "data.json", "./in put.json", "/nonexistent/dir/x", "-", "--", "-input", "stdin", "/dev/stdin", "é.json"})
+		if strings.HasPrefix(c.FileName, "-") {
+			c.StdinNoise = r.Pick([]string{"{\"other\":1}", "[]", "garbage", ""})
+		}
 		c.InputFlag = r.Pick([]string{"-input", "--input", "-input=", "--input="})
 	}
 	return c
@@ -722,20 +740,13 @@ func ioWorker(tier string, master uint64, from, to int, maxWall time.Duration, r
 func crossCheck(bin string, c *IOCase, dir string) string {
 	sim := runJpgo(c)
 	args := c.args()[1:]
-	var tmp string
 	if c.Channel == "file" {
-		tmp = filepath.Join(filepath.Dir(bin), fmt.Sprintf("xcheck-%d.json", os.Getpid()))
+		tmp := filepath.Join(filepath.Dir(bin), fmt.Sprintf("xcheck-%d.json", os.Getpid()))
 		if err := os.WriteFile(tmp, []byte(c.Text), 0644); err != nil {
 			return ""
 		}
 		defer os.Remove(tmp)
-		for i, a := range args {
-			if a == c.FileName {
-				args[i] = tmp
-			} else if strings.HasSuffix(a, "="+c.FileName) {
-				args[i] = a[:len(a)-len(c.FileName)] + tmp
-			}
-		}
+		args = c.argsFor(tmp)[1:]
 	}
 	cmd := exec.Command(bin, args...)
 	var so, se bytes.Buffer
